@@ -3,6 +3,7 @@ package main
 import (
 	"fmt"
 	"os"
+	"strings"
 )
 
 // c04: API-level histories (also the substrate of C07/C12/C13: images after every commit when -img=commit).
@@ -25,6 +26,7 @@ func c04Main(args []string) error {
 	txs := c.fs.Int("txs", 12, "transactions per history")
 	opsPerTx := c.fs.Int("ops", 12, "max ops per transaction")
 	dir := c.fs.String("dir", "", "scratch dir")
+	sched := c.fs.Int("sched", 0, "run every history under this many option schedules (options re-drawn at every open)")
 	bigfree := c.fs.Bool("bigfree", false, "prepend one history whose free list exceeds 65535 entries")
 	readersAlways := c.fs.Bool("readers", false, "every history holds read transactions open across writer events")
 	c.fs.Parse(args)
@@ -77,6 +79,46 @@ func c04Main(args []string) error {
 			o.imm = 4 << 20 // avoid most remaps (which block on open readers) in reader histories
 		}
 		lines := genHistory(cr, cfg, o)
+		if *sched > 0 {
+			// C13: the same history under different option schedules; options are re-drawn at every open,
+			// read-only opens (with and without preloading the freelist) are slipped in before reopenings
+			for k := 0; k < *sched; k++ {
+				sr := &rng{s: cr.s + uint64(k)*7919}
+				var L []string
+				first := true
+				for _, l := range lines {
+					if !strings.HasPrefix(l, "open ") {
+						L = append(L, l)
+						continue
+					}
+					o2 := o
+					if k > 0 || !first {
+						o2.fl = []string{"array", "hashmap"}[sr.intn(2)]
+						o2.nfs = sr.chance(1, 2)
+						o2.ngs = sr.chance(1, 2)
+						o2.imm = []int{0, 1 << 16, 4 << 20}[sr.intn(3)]
+						o2.strict = sr.chance(1, 3)
+						if first {
+							o2.ps = []int{1024, 2048, 4096, 8192, 16384}[sr.intn(5)]
+						}
+					}
+					if cfg.readers {
+						o2.imm = 4 << 20
+					}
+					if !first && sr.chance(1, 2) {
+						ro := o2
+						ro.ro = true
+						ro.pre = sr.chance(1, 2)
+						ro.strict = false
+						L = append(L, "open "+ro.String(), "beginr 950", "dump r950", "x r950 create - 7a", "endr 950", "beginw", "close")
+					}
+					L = append(L, "open "+o2.String())
+					first = false
+				}
+				runHistory(w, *dir, i*100+k, fmt.Sprintf("seed=%d sched=%d", cr.s, k), L, *img)
+			}
+			continue
+		}
 		runHistory(w, *dir, i, fmt.Sprintf("seed=%d", cr.s), lines, *img)
 	}
 	return nil
